@@ -1,6 +1,7 @@
 import MqttVerif.Conn.Step
 import MqttVerif.Props.C20
 import MqttVerif.Framing.Lemmas
+import MqttVerif.Conn.Lemmas.Resend
 /-!
 # C05 helpers — invariant pieces, well-formedness hypotheses, leaf lemmas
 
@@ -544,6 +545,10 @@ theorem sendStored_goodV {c : C} (h : GoodV c.s) (hb : Headroom c.s) :
   have hk : i ∈ st.map (·.1) := List.mem_map.2 ⟨(i, q), hm, rfl⟩
   have := s4 i
   grind
+
+theorem resendStored_goodV {c : C} (h : GoodV c.s) (hb : Headroom c.s) :
+    GoodV (resendStored c).s :=
+  resendStored_ind (Q := fun x => GoodV x.s) c (sendStored_goodV h hb) (fun h' => sendPostProcess_goodV h')
 
 /-! ## `TopicAliasSend` -/
 
